@@ -16,7 +16,12 @@ Name-server choice (dgram_common.run_c10_resolv): histories of ONE server proces
 is rewritten - between two queries and between the attempts of one query - run through the real server.main, DnsProxy.try_send AND
 the real helpers.get_random_nameserver / resolvconf_nameservers (only `open` as the helpers module sees it is scripted); oracle on
 the real code alone: every attempt goes to port 53 of a server the file names AT THAT MOMENT (127.0.0.1 when it names none), or to
-the configured resolver whatever the file says (Props/C10.v c10_attempt_target_current states the same of Model/DgramNs.v)."""
+the configured resolver whatever the file says (Props/C10.v c10_attempt_target_current states the same of Model/DgramNs.v).
+Attempt budget (dgram_common.attempt_oracle): the fake environment keeps a trace of every DNS_REQ frame the real Mux hands to the real
+server.main and of every connect / send / recv on a resolver socket; oracle on the real code alone, over the WHOLE life of a query (any number
+of loop iterations): no query leads to more than 3 attempts (connects on a fresh resolver socket), whatever mixture of connect, send and
+receive errors (Props/C10.v c10_attempt_budget_whole_life: every run of try_send keeps tries <= 3 and tries counts the attempts so far;
+c10_target_attempts + c10_target_retry state the budget 3 - tries for every run of try_send, first or re-entered)."""
 import os
 import sys
 
@@ -37,7 +42,13 @@ RULE = ("event scripts: mostly-valid life cycles (query->reply, query->error->re
         "while a query waits and its receive error triggers the retry; list becoming empty, file disappearing, empty or absent becoming non-empty; "
         "IPv4 -> IPv6; comment, malformed, mixed-case, tab-separated, CRLF lines; configured resolver) + 150 random (3000 thorough) server-process "
         "histories of 2-5 iterations with 0-2 queries each, up to 3 attempts per query, replies and receive errors, 1-3 name servers per file "
-        "version out of 12 IPv4/IPv6 addresses, decoy addresses in comment/malformed lines; non-trivial when at least one attempt was made")
+        "version out of 12 IPv4/IPv6 addresses, decoy addresses in comment/malformed lines; non-trivial when at least one attempt was made; "
+        "attempt-budget scripts (compared with the model step by step like every server script): 4 handmade (receive errors only, refused 3 times and "
+        "again on the sockets a 4th / 5th attempt would open; send error + 2 receive errors + an answer on a would-be 4th socket; 2 connect errors at "
+        "dispatch + receive errors; two queries with interleaved refusals) + 150 random (3000 thorough) scripts of 3-10 iterations with 1-3 queries, "
+        "each pursued with connect / send errors at dispatch (p 0, 0.2 or 0.5) and receive errors (85 % of the visits; NET_ERRS 9:1 other errnos) on the "
+        "socket it currently waits on, well past three errors in total, the sockets of attempts beyond the budget offered as ready with an error too; "
+        "every server script of the run (handmade, random, attempt-budget) is judged by the per-query attempt count")
 TRUSTED_BASE = [
     "the client's channel table is compared in identifier order, without the None-valued keys finished TCP flows leave behind (the code "
     "never iterates over mux.channels and reads it only through .get(): None and absent are the same to it - Model/Dgram.v tcp_end)",
@@ -50,6 +61,9 @@ TRUSTED_BASE = [
     "the scripted current text of /etc/resolv.conf (FileNotFoundError when scripted absent); the file changes only at scripted points (before an "
     "iteration, right after an attempt's connect), never between get_random_nameserver's read and the connect that follows it; random.shuffle is the "
     "real one, seeded per history (the oracle is membership); the harness's own reading of resolv.conf(5) (dgram_common.spec_nameservers) is the spec side",
+    "attempt budget: an attempt is attributed to a query at the boundary only - a connect on a resolver socket belongs to the DNS_REQ frame the real "
+    "Mux dispatched last before it (observer wrapped around mux.got_dns_req, the Mux -> server.main interface) or, when a recv on a resolver socket came "
+    "in between, to the query that socket was opened for; connects that follow neither in the same iteration are not counted",
     "resolv.conf histories are judged on the real code only: Model/DgramNs.v try_send_ns (per-attempt lists) is proved (c10_attempt_target_current) and "
     "proved equal to the extracted, compared try_send when no rewrite is scripted (c10_try_send_ns_conservative), but is not itself extracted / compared step by step",
 ]
